@@ -464,7 +464,9 @@ def oracle_cases(rng, tier):
     for i in range(80 if thorough else 6):
         Pk = rand_Pk(rng); pk = {str(k): float(v) for k, v in Pk.items()}
         Sk0 = {str(k): rng.choice([0.5, 0.75, 0.875, 1.0]) for k in Pk}
-        phiS0 = rng.choice([0.5, 0.625, 0.75]); phiR0 = rng.choice([0.0625, 0.125])      # phiS0 + phiR0 < 1: some edges lead to infected nodes (else theta = 1 is a second rest point)
+        phiS0 = 0.0 if i % 3 == 1 else rng.choice([0.5, 0.625, 0.75]); phiR0 = 0.0 if i % 3 == 2 else rng.choice([0.0625, 0.125])      # phiS0 + phiR0 < 1: some edges lead to infected nodes (else theta = 1 is a second rest point)
+        # phiS0 = 0 (no susceptible node has a susceptible neighbour: star with the centre infected, one side of a bipartite graph) and
+        # phiR0 = 0 are legitimate explicit values, not "use the default"
         base = dict(Pk=pk, Sk0=Sk0, N=rng.choice([10, 100]), phiS0=phiS0, phiR0=phiR0, R0=rng.choice([0.0, 1.0]))
         cases.append(('Attack_rate_discrete/exact-Sk0-phiS0-phiR0', 'attack_general', dict(base, kind='discrete', p=rng.choice([0.25, 0.5, 0.75]), n=rng.choice([1, 2, 5, 17]))))
         cases.append(('Attack_rate_cts_time/limit-Sk0-phiS0-phiR0', 'attack_general', dict(base, kind='cts', tau=rng.choice([0.5, 1.0, 2.0]), gamma=rng.choice([0.5, 1.0]))))
